@@ -185,6 +185,32 @@ def concatenate_clauses(ctx):
     var = loop.target.id
     at = Atomizer(repo, res, f, var, 'descr', scope_node=loop)
     counter = None
+    # scan state: locals that are assigned constants (or names of module constants) before and inside the loop
+    from sa.model import norm_compare as _ncmp
+
+    def const_like(e_):
+        return isinstance(e_, ast.Constant) or (isinstance(e_, ast.Name) and e_.id.isupper())
+    in_loop_sets = {pseudo(n.targets[0]) for n in ast.walk(loop) if isinstance(n, ast.Assign) and pseudo(n.targets[0]) and const_like(n.value)}
+    pre = loop._parent.body[:loop._parent.body.index(loop)]
+    initial_state = {(pseudo(n.targets[0]), u(n.value)) for st_ in pre for n in ast.walk(st_) if isinstance(n, ast.Assign)
+                     and pseudo(n.targets[0]) in in_loop_sets and const_like(n.value)}
+    state_vars = {v_ for v_, _ in initial_state}
+    after_state = set()
+
+    def cond_atoms(t, pol):
+        """(state variable, value text, polarity) atoms of a guard: `flag` -> (flag, 'True', pol); `state == C` -> (state, C, pol)"""
+        t, pol = _ncmp(t, pol)
+        if isinstance(t, ast.Name) and t.id in state_vars:
+            return [(t.id, 'True', pol), (t.id, 'False', not pol)]
+        if isinstance(t, ast.Compare) and len(t.ops) == 1 and isinstance(t.ops[0], ast.Eq) and pseudo(t.left) in state_vars:
+            return [(pseudo(t.left), u(t.comparators[0]), pol)]
+        return []
+
+    def state_conds(p_):
+        out = []
+        for t, pol in p_.guards():
+            out += cond_atoms(t, pol)
+        return out
     for p in Enumerator(where=f.qualname).body_paths(loop):
         val = at.path_atoms(p)
         if val is None or p.term == RAISE:
@@ -209,20 +235,29 @@ def concatenate_clauses(ctx):
             run.check(len(own) == 1 and not incs, 'CAT', where(repo, loop), f.qualname, stream.fmt_atoms(val),
                       'an unselected resource must keep its descriptor exactly once and not be counted')
             if tgt:
-                sets = any(isinstance(n, ast.Assign) and pseudo(n.targets[0]) == 'suffix' and
-                           isinstance(n.value, ast.Constant) and n.value.value is True for n in nodes)
-                run.check(len(tgt) == 1 and nodes.index(tgt[0]) < nodes.index(own[0]) and sets and
-                          val.get(('FLAG', 'suffix')) is False and val.get(('FLAG', 'prefix')) is False,
-                          'CAT', where(repo, tgt[0]), f.qualname, stream.fmt_atoms(val) + ' places target',
+                # the run has ended: the target is placed once, before this resource, and the scan state moves to "after the run"
+                # (whatever the encoding: two booleans, one state variable): the path records a new state value, was neither in
+                # the initial state nor already in that new state
+                sets_after = {(pseudo(n.targets[0]), u(n.value)) for n in nodes if isinstance(n, ast.Assign) and pseudo(n.targets[0])
+                              and isinstance(n.value, (ast.Constant, ast.Name)) and pseudo(n.targets[0]) in state_vars}
+                conds = state_conds(p)
+                not_after = all((v_, c_, False) in conds for v_, c_ in sets_after)
+                not_initial = any((v_, c_, False) in conds for v_, c_ in initial_state)
+                after_state.update(sets_after)
+                run.check(len(tgt) == 1 and nodes.index(tgt[0]) < nodes.index(own[0]) and bool(sets_after) and not_after and not_initial,
+                          'CAT', where(repo, tgt[0]), f.qualname, stream.fmt_atoms({a: v for a, v in val.items() if a[0] == 'MATCH'}) + ' places target',
                           'the target descriptor is not placed exactly once, before the first unselected resource that '
                           'follows the selected run')
-    # post-loop placement under `not suffix`
+    # post-loop placement: exactly when the scan never reached the "after the run" state
     body = loop._parent.body
     post = [st for st in body[body.index(loop) + 1:] if any(
         isinstance(c, ast.Call) and isinstance(c.func, ast.Attribute) and c.func.attr == 'append' and pseudo(c.func.value) == lst
         for c in ast.walk(st))]
-    okp = len(post) == 1 and isinstance(post[0], ast.If) and u(post[0].test) == 'not suffix' and not post[0].orelse
-    run.check(okp, 'CAT', where(repo, post[0]) if post else f.where, f.qualname, 'if not suffix: append(target)',
+    okp = len(post) == 1 and isinstance(post[0], ast.If) and not post[0].orelse and bool(after_state)
+    if okp:
+        pc = cond_atoms(post[0].test, True)
+        okp = bool(pc) and len({a_[0] for a_ in pc}) == 1 and any((v_, c_, False) in pc for v_, c_ in after_state)
+    run.check(okp, 'CAT', where(repo, post[0]) if post else f.where, f.qualname, 'if not <after the run>: append(target)',
               'the target descriptor is not appended at the end exactly when no gap followed the selected run')
     # stream phase
     rls = [rl for rl in find_resloops(repo, res, func, ['package']) if rl.kind == 'for']
